@@ -3,14 +3,17 @@
 // Contracts for the deductive verification in /verif (comment-only; compiled code is unaffected).
 package walletmanager
 
+// every collaborator the constructor checks for is present (object invariant: proved for the value the constructor returns)
+//@ spec wiredWMHandler(h *Handler) bool = h != nil && h.walletManager != nil
+
 // C20: a response or an error for every request.
 //@ func (*Handler).Lock
-//@ requires h != nil
+//@ requires wiredWMHandler(h)
 //@ requires [unlocked] !prelocked && (forall k [48]byte :: !held[k])
 //@ modifies checkedset, deniedset, tokroot, db, held, prelocked
 //@ ensures [answer] (req == nil ==> result0 == nil && result1 != nil) && (req != nil ==> result0 != nil && result1 == nil)
 //@ func (*Handler).Unlock
-//@ requires h != nil
+//@ requires wiredWMHandler(h)
 //@ requires [unlocked] !prelocked && (forall k [48]byte :: !held[k])
 //@ modifies checkedset, deniedset, tokroot, db, held, prelocked
 //@ ensures [answer] (req == nil ==> result0 == nil && result1 != nil) && (req != nil ==> result0 != nil && result1 == nil)
